@@ -6,6 +6,7 @@ import (
 	"fmt"
 	"io"
 	"math/big"
+	"reflect"
 	"testing/iotest"
 
 	"verif/harness/gen"
@@ -100,8 +101,7 @@ func mkPool(r *grp, rng *gen.Rng, n int) []ocurve.Pt {
 	cur := base
 	for len(out) < n {
 		if !cur.Inf {
-			r.fm.MarkSubgroup(cur)
-			r.fm.MarkSubgroup(C.Neg(cur))
+			r.fm.Learn(cur, true)
 			out = append(out, cur)
 		}
 		cur = C.Add(cur, base)
@@ -598,6 +598,42 @@ func runStreams(c *mon.Ctx, s *slib) {
 
 	// ---- D. writers that fail ----
 	failingWriters(c, s, rng, pl)
+
+	// ---- E. unusable arguments: an error, never a panic ----
+	misuse(c, s)
+}
+
+func misuse(c *mon.Ctx, s *slib) {
+	L := s.l.name
+	var nilU *uint64
+	type odd struct{ A []int }
+	for _, t := range []struct {
+		n string
+		v any
+	}{{"nil", nil}, {"non-pointer", uint64(5)}, {"nil-pointer", nilU}, {"unsupported-type", &odd{}}} {
+		key := L + "/any/Decoder.Decode/"
+		var err error
+		dec := s.decoder(bytes.NewReader(make([]byte, 64)), false)
+		c.Class(key + t.n)
+		if c.Guard(key+"panic/"+t.n, func() string { return t.n }, func() { err = dec.Decode(t.v) }) {
+			continue
+		}
+		c.Check("Decoder.Decode", key+"nil-error-on-malformed/"+t.n, err != nil, func() string { return "Decode(" + t.n + ") returned nil" })
+	}
+	for _, t := range []struct {
+		n string
+		v any
+	}{{"nil", nil}, {"nil-pointer", reflect.Zero(reflect.PointerTo(s.g1.T)).Interface()}, {"unsupported-type", &odd{}}} {
+		key := L + "/any/Encoder.Encode/"
+		var err error
+		var buf bytes.Buffer
+		enc := s.encoder(&buf, false)
+		c.Class(key + t.n)
+		if c.Guard(key+"panic/"+t.n, func() string { return t.n }, func() { err = enc.Encode(t.v) }) {
+			continue
+		}
+		c.Check("Encoder.Encode", key+"error-hidden/"+t.n, err != nil, func() string { return "Encode(" + t.n + ") returned nil" })
+	}
 }
 
 // replaceAt returns stream with bytes [at, at+n) replaced by repl.
@@ -781,10 +817,14 @@ func corruptPointSlices(c *mon.Ctx, s *slib, rng *gen.Rng, pl *pools) {
 			pool = pl.g2
 		}
 		bads := badPoints(g, rng, pool)
-		for _, n := range []int{1, 2, 3, 65} {
+		ns := []int{1, 2, 3, 65}
+		if c.Thorough() {
+			ns = []int{1, 2, 3, 16, 17, 65, 130}
+		}
+		for _, n := range ns {
 			v := s.genVal(k, rng, pl, n)
 			for _, raw := range []bool{false, true} {
-				if raw && n == 65 && !c.Thorough() {
+				if raw && n >= 65 && !c.Thorough() {
 					continue
 				}
 				// item offsets
@@ -794,12 +834,15 @@ func corruptPointSlices(c *mon.Ctx, s *slib, rng *gen.Rng, pl *pools) {
 				}
 				stream := s.gr.Encode(v, raw)
 				var positions []int
-				if n <= 3 || c.Thorough() {
+				if n <= 3 || (c.Thorough() && n <= 65) {
 					for i := 0; i < n; i++ {
 						positions = append(positions, i)
 					}
 				} else {
 					positions = []int{0, 1, n / 2, n - 2, n - 1, 2 + rng.Intn(n-4), 2 + rng.Intn(n-4)}
+					for i := 0; c.Thorough() && i < 17; i++ {
+						positions = append(positions, 2+rng.Intn(n-4))
+					}
 				}
 				h := []item{{v: v}}
 				mode := "compressed"
@@ -808,7 +851,7 @@ func corruptPointSlices(c *mon.Ctx, s *slib, rng *gen.Rng, pl *pools) {
 				}
 				for _, i := range positions {
 					for bi, bad := range bads {
-						if n == 65 && !c.Thorough() && (bi+i)%2 == 1 {
+						if n >= 65 && !c.Thorough() && (bi+i)%2 == 1 {
 							continue
 						}
 						cs := replaceAt(stream, offs[i], offs[i+1]-offs[i], bad.b)
